@@ -16,9 +16,10 @@
                                                         -> spec view of the Coq transform of the parsed file
      ("ok_gabi" #img args) / ("ok_zgnu" #img args)      -> the executable hypotheses of the invariance theorems
                                                            (gabi_choice_ok; zgnu_choice_ok && plain_names && no_phantom)
+     ("kept" #img) -> (bool ...) per section; ("t_keep" #img tbl) -> spec view of T_keep_debug of the parsed file
      ("secs" #img)                                      -> the abstract sections (name type flags addr size #content)
 *)
-From PV Require Import Base.Outcome Base.Fmt Base.Prim Spec.C11Container Model.C11Elf Model.C11Dwarf.
+From PV Require Import Base.Outcome Base.Fmt Base.Prim Spec.C11Container Model.C11Elf Model.C11Dwarf Proofs.C11Refine.
 Open Scope string_scope.
 
 Definition tbl_inflate (tbl : list sx) (data : list Z) (maxlen : Z) : option (list Z * bool) :=
@@ -67,8 +68,8 @@ Definition sx_view (v : view) : sx :=
       | None => sx_none
       end].
 
-Definition parse_opt (img : list Z) : option elf :=
-  match parse_image img with Ok e => Some e | Err _ => None end.
+(* parse_opt (the reader of linked files handed to debug_view) is the one of Proofs/C11Refine.v,
+   about which C11_model_refines_spec speaks *)
 
 Definition sx_sec (s : sec) : sx :=
   SL [SB (s_name s); SI (s_type s); SI (s_flags s); SI (s_addr s); SI (s_size s);
@@ -148,6 +149,17 @@ Definition dispatch (req : sx) : sx :=
     (* the bool hypotheses of C11_view_invariant_zgnu *)
     match parse_image (gB a1) with
     | Ok e => sx_ok (sx_bool (zgnu_choice_ok (zgnu_choice (gL a2)) e && plain_names e && no_phantom e))
+    | Err x => sx_of_err x
+    end
+  else if op =? "kept" then
+    (* which sections T_keep_debug leaves alone *)
+    sx_res (fun e => SL (map (fun s => sx_bool (kept s)) (e_secs e))) (parse_image (gB a1))
+  else if op =? "t_keep" then
+    (* spec view of T_keep_debug of the parsed file; the bytes at the offsets stay what they were *)
+    match parse_image (gB a1) with
+    | Ok e => sx_opt sx_view (debug_view (tbl_inflate (gL a2)) parse_opt 1 None
+                (T_keep_debug (fun i => match nth_error (e_secs e) i with Some s => s_stream s | None => [] end) e)
+                true false)
     | Err x => sx_of_err x
     end
   else if op =? "secs" then
